@@ -574,6 +574,36 @@ theorem locateNoPre_transpose (P : Params) (hP : P.preprocess = false) (H W : Na
       exact refine_transpose P.shiftThr (ofArray [H, W] raw) (ofArray [H, W] raw) ry rx H W P.maxIter
         [Int.ofNat i, Int.ofNat j]
 
+theorem greyDilation_isSome (img : Find.Image) (sep : List Rat) (pct : Rat) (margin : List Nat) :
+    (greyDilation img sep pct (some margin) false).isSome = wellFormed img sep margin := by
+  unfold greyDilation greyDilationK
+  simp only [Option.getD_some]
+  cases hw : wellFormed img sep margin
+  · simp
+  · cases percentileThr img pct <;> simp
+
+/-- … and the model answers on the transposed image exactly when it answers on the image (the
+argument checks of `grey_dilation` are symmetric in the axes) -/
+theorem locateNoPre_transpose_answers (P : Params) (hP : P.preprocess = false) (H W : Nat)
+    (raw rawT : Array Nat) (hs : raw.size = H * W) (hsT : rawT.size = W * H)
+    (s0 s1 : Rat) (m0 m1 : Nat) (hsep : P.sep = [s0, s1]) (hmar : P.margin = [m0, m1]) :
+    (locateModel (transParams P) [W, H] rawT).isSome = (locateModel P [H, W] raw).isSome := by
+  rw [locateModel_eq_tail, locateModel_eq_tail]
+  unfold workImage
+  have hPT : (transParams P).preprocess = false := hP
+  simp only [hP, hPT, Bool.false_eq_true, if_false, Option.bind_some]
+  unfold locateTail
+  simp only [transParams, hsep, hmar, List.reverse_cons, List.reverse_nil, List.nil_append,
+    List.cons_append]
+  have e1 : ∀ (o : Option (List Pos)) (f : List Pos → List Measure),
+      (match o with | none => none | some c => some (f c)).isSome = o.isSome := by
+    intro o f; cases o <;> rfl
+  rw [e1, e1, greyDilation_isSome, greyDilation_isSome]
+  unfold wellFormed
+  simp only [List.length_cons, List.length_nil, List.foldl_cons, List.foldl_nil, List.all_cons,
+    List.all_nil, Bool.and_true, hs, hsT, Nat.one_mul, Nat.mul_comm W H]
+  rw [Bool.and_comm (decide (0 < s1) && decide (1 ≤ boxSize (0 + 1 + 1) s1))]
+
 /-- non-vacuity: a 4×5 image (peak 9 at (1,2) with neighbours 1 and 2) and `Locate.revImg` of it:
 the relation `IsTranspose` holds (checker), the model answers on both with two rows each — both
 maxima refine to the peak — at exchanged positions; the `ecc` sums are `(8, 0, 9)` for the image and
